@@ -81,9 +81,12 @@ Print Assumptions C01_euler_gimbal_pi_refuted.
 
 (* -- axis-angle ---------------------------------------------------------------- *)
 (* FULL clause: forall unit q, ax2qu (qu2ax q) = +-q and the angle is in [0,pi].
-   Proved on the positive hemisphere outside the small-angle bands; on the
-   negative hemisphere the kernel pair returns the INVERSE rotation and an
-   angle in (pi, 2pi): refuted. *)
+   KERNEL level: proved on the positive hemisphere outside the small-angle
+   bands; on the negative hemisphere the kernel pair returns the INVERSE
+   rotation and an angle in (pi, 2pi) (refuted below).  The public wrappers
+   to_axes_angles / to_rodrigues(frank=True) canonicalise the sign first (after
+   the repair 281bcbf), see C01_axis_roundtrip_public; to_homochoric does not
+   (pinned by test_from_to_homochoric) and stays a known finding. *)
 Theorem C01_axis_roundtrip_pos_partial : forall a b c d : R,
   a * a + b * b + c * c + d * d = 1 ->
   1 / 1000000000 <= a -> 1 / 100000000 <= 2 * acos a ->
@@ -111,6 +114,23 @@ Theorem C01_axis_roundtrip_neg_refuted :
     ax2qu ROps (qu2ax ROps q) <> q /\ ax2qu ROps (qu2ax ROps q) <> qneg ROps q.
 Proof. exact ax_roundtrip_neg_refuted. Qed.
 Print Assumptions C01_axis_roundtrip_neg_refuted.
+
+(* PUBLIC to_axes_angles / to_rodrigues(frank=True): the wrapper chooses the sign of
+   the unit quaternion (Quat.qpos) before the kernel, so the round trip holds on
+   BOTH hemispheres (outside the small-angle bands) and the angle is in [0, pi] *)
+Theorem C01_axis_roundtrip_public : forall a b c d : R,
+  a * a + b * b + c * c + d * d = 1 ->
+  1 / 1000000000 <= Rabs a -> 1 / 100000000 <= 2 * acos (Rabs a) ->
+  ax2qu ROps (qu2ax ROps (qpos ROps (a, b, c, d))) = (a, b, c, d) \/
+  ax2qu ROps (qu2ax ROps (qpos ROps (a, b, c, d))) = qneg ROps (a, b, c, d).
+Proof. exact ax_roundtrip_public. Qed.
+Print Assumptions C01_axis_roundtrip_public.
+
+Theorem C01_axis_angle_range_public : forall a b c d : R,
+  a * a + b * b + c * c + d * d = 1 ->
+  let '(a', _, _, _) := qpos ROps (a, b, c, d) in 0 <= 2 * acos a' <= PI.
+Proof. exact ax_angle_range_public. Qed.
+Print Assumptions C01_axis_angle_range_public.
 
 (* -- homochoric ------------------------------------------------------------------- *)
 Theorem C01_homochoric_range_pos : forall a b c d : R,
